@@ -1,10 +1,12 @@
 (** C11 — a script parses as the concatenation of its statements.
     Statements only.  The generic theorems are in theories/Script.v, over the model of
     parse_statements in theories/Machine.v (tied to the code by the in-kernel correspondence:
-    operation [PStmts] runs Parser::parse_statements).  Instance data regenerated on every run:
+    operation [PStmts] runs Parser::parse_statements, operation [PBlock] runs the block variant
+    parse_statement_list(true) through CREATE PROCEDURE .. AS BEGIN .. END).  Instance data regenerated on every run:
     the inventory of places where a statement parser looks at EOF / consumes the separator /
     advances the cursor in a bare loop. *)
-Require Import SqlV.Base SqlV.Machine SqlV.MachineProofs SqlV.LimitMono SqlV.CommaList SqlV.Script SqlV.Pinned.
+Require Import SqlV.Base SqlV.Machine SqlV.MachineProofs SqlV.MachineRel SqlV.LimitMono SqlV.CommaList SqlV.Script SqlV.Pinned.
+Require Import SqlV.WsInvariance SqlV.RecaseInvariance SqlV.BlockProbe.
 Require Import SqlVGen.Inv11.
 
 (** For every statement parser and all n: if each statement text is parsed locally (the parser
@@ -48,6 +50,113 @@ Print Assumptions C11_block_stops_at_end.
 (** The loop itself keeps the parser state (depth, option, state) whatever the statements do. *)
 Theorem C11_loop_frame : forall okm oke A (stmt : M A) fuel, Iface okm oke A stmt -> Frame (parse_statements fuel stmt).
 Proof. intros. eapply iface_frame. apply I_parse_statements. eassumption. Qed.
+
+(** * The block probe: the model of [parse_statement] on  CREATE PROCEDURE <word> AS BEGIN <body> END
+      that the correspondence runs against the real parser ([PBlock], Machine.block_probe), the only
+      caller of the block variant of the loop. *)
+
+(** It is taken exactly in front of that header; otherwise nothing happens. *)
+Theorem C11_block_probe_not_taken : forall fuel d s,
+  header_ahead s = false -> block_probe fuel d s = (Ok VUnit, s).
+Proof. exact block_probe_not_taken. Qed.
+Print Assumptions C11_block_probe_not_taken.
+
+(** Taken, it is [parse_statement]'s route to [parse_create_procedure] under one depth guard:
+    the name, AS, BEGIN, the block variant of the loop over the statement parser, END. *)
+Theorem C11_block_probe_taken : forall fuel d s n,
+  header_ahead s = true -> depth s = S n ->
+  block_probe fuel d s =
+  let '(o, s') := (next_token ;;; parse_keyword (s2l "PROCEDURE") ;;; create_procedure fuel) d (set_depth n s) in
+  (o, set_depth (S (depth s')) s').
+Proof. exact block_probe_taken. Qed.
+Print Assumptions C11_block_probe_taken.
+
+Theorem C11_block_probe_at_depth_0 : forall fuel d s,
+  header_ahead s = true -> depth s = 0%nat -> block_probe fuel d s = (Err Limit, s).
+Proof. exact block_probe_at_depth_0. Qed.
+Print Assumptions C11_block_probe_at_depth_0.
+
+(** Whatever the body does (errors included), tokens, state, option and depth are as before. *)
+Theorem C11_block_probe_frame : forall rr fuel, Frame (denote rr fuel PBlock).
+Proof. exact block_probe_frame. Qed.
+Print Assumptions C11_block_probe_frame.
+
+(** Whitespace between the tokens and the ASCII case of the keywords do not matter (the probe is
+    skipping-only: its look-ahead is five [peek_nth_token]). *)
+Theorem C11_block_probe_ws_invariant : forall ts ts' tcf limit rr fuel d,
+  same_nonws ts ts' ->
+  Ro err_sim (val_rel tok_sim)
+     (fst (denote rr fuel PBlock d (init_state ts tcf limit)))
+     (fst (denote rr fuel PBlock d (init_state ts' tcf limit))).
+Proof. exact block_probe_ws_invariant. Qed.
+Print Assumptions C11_block_probe_ws_invariant.
+
+Theorem C11_block_probe_recase_invariant : forall ts ts' tcf limit rr fuel d,
+  recased ts ts' ->
+  Ro err_recase (val_rel tok_recase)
+     (fst (denote rr fuel PBlock d (init_state ts tcf limit)))
+     (fst (denote rr fuel PBlock d (init_state ts' tcf limit))).
+Proof. exact block_probe_recase_invariant. Qed.
+Print Assumptions C11_block_probe_recase_invariant.
+
+(** The body of a block, for every statement parser and all n (the counterpart of
+    [C11_script_concat] for the block variant, with the final state): if every statement but the
+    last is parsed locally in front of a separator and the last in front of END, then the block
+    followed by [expect_keyword END] returns exactly [a1; ...; an] and stops behind END.
+    [ok]: the states on which the statement parser is known. *)
+Theorem C11_block_body : forall A (stmt : M A) d (ok : mstate -> Prop) B (g : list A -> B) more vals ts a pre ws e rest s fuel,
+  ok s -> wf_block A stmt d ok ts a more vals -> all_ws ws -> is_kw (s2l "END") e = true ->
+  toks s = pre ++ script_text ts more ++ ws ++ e :: rest ->
+  (length vals + 1 < fuel)%nat ->
+  (l <- parse_statement_block fuel stmt ;; expect_keyword (s2l "END") ;;; ret (g l)) d (set_idx (length pre) s)
+  = (Ok (g (a :: vals)), set_idx (length (pre ++ script_text ts more ++ ws ++ [e])) s).
+Proof. exact block_body. Qed.
+Print Assumptions C11_block_body.
+
+(** Through the probe: header, such a body over the fragment's statement parser, END; two levels
+    of depth suffice whatever n is (one for [parse_statement], one given back by each statement). *)
+Theorem C11_block_probe_script : forall d c p nm a_ b more vals ts a ws e rest s fuel k,
+  block_header c p nm a_ b = true ->
+  wf_block val stmt_core d has_depth ts a more vals -> all_ws ws -> is_kw (s2l "END") e = true ->
+  toks s = [c; p; nm; a_; b] ++ script_text ts more ++ ws ++ e :: rest -> idx s = 0%nat ->
+  depth s = S (S k) -> (length vals + 1 < fuel)%nat ->
+  block_probe fuel d s
+  = (Ok (VList (a :: vals)), set_idx (length ([c; p; nm; a_; b] ++ script_text ts more ++ ws ++ [e])) s).
+Proof. exact block_probe_script. Qed.
+Print Assumptions C11_block_probe_script.
+
+(** Instance for all n: n+1 bare COMMIT / END statements, one or more [;] between two of them,
+    whitespace anywhere in the body, then END (an END behind a separator is a statement, the END
+    behind a statement closes the block). *)
+Theorem C11_block_probe_commits : forall d c p nm a_ b ws0 c0 l ws e rest s fuel k,
+  block_header c p nm a_ b = true ->
+  all_ws ws0 -> is_kw (s2l "COMMIT") c0 || is_kw (s2l "END") c0 = true -> bare_ok l ->
+  all_ws ws -> is_kw (s2l "END") e = true ->
+  toks s = [c; p; nm; a_; b] ++ script_text (ws0 ++ [c0]) (bare_more l) ++ ws ++ e :: rest -> idx s = 0%nat ->
+  depth s = S (S k) -> (length l + 2 < fuel)%nat ->
+  block_probe fuel d s
+  = (Ok (VList (repeat (VBool false) (S (length l)))),
+     set_idx (length ([c; p; nm; a_; b] ++ script_text (ws0 ++ [c0]) (bare_more l) ++ ws ++ [e])) s).
+Proof. exact block_probe_commits. Qed.
+Print Assumptions C11_block_probe_commits.
+
+(** Non-vacuity on the model: body  COMMIT ; ; commit AND CHAIN  then END (what follows END is left
+    alone); no closing END; missing separator; depth 1 and 0; not at the cursor. *)
+Theorem C11_block_probe_example :
+  bp_run (bp_header ++ bp_body ++ [bp_kw "END" "END"; bp_mk (TP PSemi); bp_kw "COMMIT" "COMMIT"]) 2
+    = (Ok (VList [VBool false; VBool true]), 18%nat, 2%nat)
+  /\ bp_run (bp_header ++ bp_body) 2
+    = (Err (Syntax (s2l "Expected: END, found: EOF")), 16%nat, 2%nat)
+  /\ bp_run (bp_header ++ [bp_kw "COMMIT" "COMMIT"; bp_mk (TWs 0); bp_kw "COMMIT" "COMMIT"; bp_kw "END" "END"]) 2
+    = (Err (Syntax (s2l "Expected: end of statement, found: COMMIT at Line: 1, Column: 1")), 9%nat, 2%nat)
+  /\ bp_run (bp_header ++ bp_body ++ [bp_kw "END" "END"]) 1
+    = (Err Limit, 8%nat, 1%nat)
+  /\ bp_run (bp_header ++ bp_body ++ [bp_kw "END" "END"]) 0
+    = (Err Limit, 0%nat, 0%nat)
+  /\ bp_run (bp_mk (TP PSemi) :: bp_header ++ bp_body ++ [bp_kw "END" "END"]) 2
+    = (Ok VUnit, 0%nat, 2%nat).
+Proof. exact block_probe_example. Qed.
+Print Assumptions C11_block_probe_example.
 
 (** * Instance: every place where a statement parser can tell EOF from [;], consumes the
       separator, or advances in a bare loop is reviewed (KnownClass = [c11_known_sites]). *)
